@@ -39,6 +39,8 @@ def _shapes(tier, cfg, t, base):
         else:
             S += [(M, K, N) for M in (1, 2, 3) for K in (1, 2, 3) for N in (1, 2, 3)]
         S += [(M, K, N) for M in (1, 2, 5, W + 1) for K in (1, 3, W + 1) for N in (W - 1, W, W + 1, W + 2, 2 * W + 1) if N >= 1]
+        # row blocks with two and three sub-blocks (M >= 2W, M % 12 == 0) against column blocks right of them
+        S += [(M, K, N) for M in (4 * W + 1, 12) for K in (3, 2 * W + 3) for N in (W + 1, 2 * W + 1, 2 * W + 3)]
     else:
         main = cfg.isa in MAIN3
         if t == "f64" and main and base:
